@@ -583,3 +583,29 @@ pub mod c20 {
         Plugins::run_pre_batch_modify(qs, &[], &mut cand, me)
     }
 }
+
+/// C38/C39: what an OAuth2 authorisation code carries. The code is a JWE under the client's
+/// key object (crate-private `server::keys`); it is decrypted here the way
+/// `check_oauth2_token_exchange_authorization_code` does and returned as plain JSON (the
+/// serialised `TokenExchangeCode`). Read-only.
+pub mod c38 {
+    use super::*;
+    use crate::server::keys::KeyProvidersTransaction;
+    use compact_jwt::compact::JweCompact;
+    use std::str::FromStr;
+
+    pub fn decode_code<'a, T: QueryServerTransaction<'a>>(
+        qs: &T,
+        client_uuid: Uuid,
+        code: &str,
+    ) -> Result<serde_json::Value, String> {
+        let jwec = JweCompact::from_str(code).map_err(|e| format!("not a jwe: {e:?}"))?;
+        let ko = qs
+            .get_key_providers()
+            .get_key_object_handle(client_uuid)
+            .ok_or_else(|| "no key object".to_string())?;
+        let jwe = ko.jwe_decrypt(&jwec).map_err(|e| format!("decrypt: {e:?}"))?;
+        jwe.from_json::<serde_json::Value>()
+            .map_err(|e| format!("json: {e:?}"))
+    }
+}
